@@ -564,7 +564,7 @@ def _bound_sets(quick):
        bound="default model (thorough + cfit, extended): bound types {two-sided, lower-only, upper-only} rotated over {mass, width, coupling} (quick 2 of 3 "
              "rotations), derivatives in the fit variable x through trans_fcn_grad / trans_f_grad_hess / trans_grad_hessp; Gaussian constraints on a "
              "coupling and a mass for FCN (default, cfit; thorough all) and CombineFCN (two data sets); Hessian (default: and Hessian-vector product) at batch "
-             "in {n+1, 65000} (default also n-1; thorough all models, + 3, n, 7) on a 22+7 / 37 row sample; Richardson steps 1e-4 / 5e-5, rtol 1e-5",
+             "in {n+1, 65000} (default also n-1; thorough all models, + n, 7, and 3 for default / cfit / simple) on a 22+7 / 37 row sample; Richardson steps 1e-4 / 5e-5, rtol 1e-5",
        assumes=["grad_hessp is called after nll_grad on the same model object (a first-use call on a fresh cached_amp model raises a TensorFlow-internal "
                 "InternalError while tracing its cached tf.function under a ForwardAccumulator)"])
 def deriv_bounds(ctx):
@@ -617,6 +617,8 @@ def deriv_bounds(ctx):
                 agg.add("bound/trans_f_grad_hess", False, "trans_f_grad_hess wrapper returns", dict(wit0, raised=exc))
             rs = np.random.RandomState(3100 + bi)
             for k in range(2 if quick else 3):
+                if L.CATALOGUE[model][1].startswith("cfit"):
+                    break  # cfit-family Hessian-vector products are refuted without any bound already (models_b hessp/<model>)
                 p = rs.uniform(-1, 1, len(x))
                 res, exc = _try(lambda: f_p(x, p))
                 if exc is None:
@@ -648,6 +650,9 @@ def deriv_bounds(ctx):
                 # cfit-family Hessian-vector products fail without any constraint already (hessp/<model>): not re-reported under gauss/
                 if kind == "hessp" and L.CATALOGUE[model][1].startswith("cfit"):
                     continue
+                # simple_cfit: Hessian refuted without any constraint already (models_b hess/simple_cfit)
+                if kind == "hess" and model == "simple_cfit":
+                    continue
                 agg.add("gauss/fcn_" + kind, it["ok"], "with Gaussian constraints: " + it["clause"], it["witness"])
     for model in ("default",) if quick else ("default", "simple", "extended"):
         config = _c07_config(ctx, model, seed=41, gauss=True, extra_data={"bg_weight": [0.3, 0.45]})
@@ -673,7 +678,9 @@ def deriv_bounds(ctx):
         config = _c07_config(ctx, model, seed=43)
         alld = _c07_samples(config, model, 431, n_data=n_data, n_bg=n_bg, n_phsp=n_phsp)
         n = n_data if cfit else n_data + n_bg
-        batches = ([65000, n - 1, n + 1] if model == "default" or not quick else [65000, n + 1]) + ([] if quick else [3, n, 7])
+        batches = ([65000, n - 1, n + 1] if model == "default" or not quick else [65000, n + 1]) + ([] if quick else [n, 7])
+        if not quick and model in ("default", "cfit", "simple"):
+            batches.append(3)
         ref = None
         p = np.random.RandomState(4300).uniform(-1, 1, len(config.vm.trainable_vars) + (1 if model in ("extended", "cfit_extended") else 0))
         for b in batches:
@@ -681,9 +688,10 @@ def deriv_bounds(ctx):
                 fcn = config.get_fcn(alld, batch=b)
                 keep.append(fcn)
                 x = np.array(fcn.vm.get_all_val(), dtype=float)
-                # nll_grad first, as every minimiser does: on a fresh cached_amp model a grad_hessp call that is the FIRST use of its cached
-                # tf.function raises a TensorFlow InternalError while tracing under the ForwardAccumulator (TF-internal; recorded, not asserted)
-                fcn.nll_grad(x)
+                if model == "cached_amp":
+                    # nll_grad first, as every minimiser does: on a fresh cached_amp model a grad_hessp call that is the FIRST use of its cached
+                    # tf.function raises a TensorFlow InternalError while tracing under the ForwardAccumulator (TF-internal; recorded, not asserted)
+                    fcn.nll_grad(x)
                 v, g, h = fcn.nll_grad_hessian(x)
                 out = [float(v), np.asarray(g, dtype=float), np.asarray(h, dtype=float)]
                 if not cfit and (model == "default" or not quick):  # cfit-family Hessian-vector products are already refuted (hessp/<model>)
